@@ -110,6 +110,11 @@ def run_online(spec, rec: Recorder):
                 cfg.l2_key_absent_at_31 = rng.random() < 0.3
                 cfg.header_sign = rng.random() < 0.8
                 cfg.reply_align = rng.choice([16, 16, 8, 4])
+                # a DC under load may take its time: one case per TCP shard (quick: the first shard only) is answered after
+                # 6 s - longer than any connect timeout the client may have set on its socket.  Both APIs must cope alike.
+                cfg.reply_delay = 6.0 if (security != "scripted" and i in (3, 4) and (spec.get("tier") != "quick" or idx == 0)) else 0.0
+                if cfg.reply_delay:
+                    rec.count("slow_dc_cases")
                 sid = online.gen_sid(rng, n=1 + (i % 15))
                 op = "protect" if i % 4 == 3 else "unprotect"
                 use_dns = i % 5 == 0
@@ -131,7 +136,10 @@ def run_online(spec, rec: Recorder):
                     lz = mode == "public" and a == "DH" and i % 2 == 0
                     if lz:
                         rec.count("leading_zero_dh_secret_blobs")
-                    blob = online.ref_blob(rng, rkid, rk, sid, (l0,) + pos, mode, pt, in_envelope=rng.random() < 0.7, domain=cfg.domain, forest="forest-root.example" if i % 2 else cfg.forest, leading_zero_secret=lz)
+                    lookalike = online.lookalike_nonce(rng) if (mode == "nonce" and i % 6 == 1) else None
+                    if lookalike:
+                        rec.count("lookalike_nonce_blobs")
+                    blob = online.ref_blob(rng, rkid, rk, sid, (l0,) + pos, mode, pt, in_envelope=rng.random() < 0.7, domain=cfg.domain, forest="forest-root.example" if i % 2 else cfg.forest, leading_zero_secret=lz, nonce=lookalike)
                     expect_gk = (sd_bytes, rkid, l0, pos[0], pos[1])
                     call_sync = lambda: dpapi_ng.ncrypt_unprotect_secret(blob, cache=dpapi_ng.KeyCache(), **kw)  # noqa: E731
                     call_async = lambda: dpapi_ng.async_ncrypt_unprotect_secret(blob, cache=dpapi_ng.KeyCache(), **kw)  # noqa: E731
@@ -156,14 +164,21 @@ def run_online(spec, rec: Recorder):
                     since = len(core.transcripts)
                     dc.connect_log.clear()
                     dns_.queries.clear()
+                    import time as _time
+
+                    t_start = _time.monotonic()
                     try:
                         with mon.NET.guard(allow_loopback=True), (mon.ENTROPY.record(forced) if forced else contextlib.nullcontext()):
                             out = call() if api == "sync" else loop.run_until_complete(asyncio.wait_for(call(), 60))
                         results[api] = ("ok", out)
-                    except asyncio.TimeoutError:
-                        rec.inconclusive_because(f"watchdog: async call did not finish in 60s: {case}")
-                        results[api] = ("timeout", None)
-                        continue
+                    except TimeoutError as e:
+                        # (asyncio.TimeoutError, socket.timeout and TimeoutError are one class: only a timeout after the
+                        # watchdog's 60 s is the watchdog's; anything earlier was raised by the client itself)
+                        if api == "async" and _time.monotonic() - t_start >= 59:
+                            rec.inconclusive_because(f"watchdog: async call did not finish in 60s: {case}")
+                            results[api] = ("timeout", None)
+                            continue
+                        results[api] = ("error", f"{type(e).__name__}: {e}")
                     except BaseException as e:
                         results[api] = ("error", f"{type(e).__name__}: {e}")
                     if security != "scripted":
